@@ -133,6 +133,25 @@ def occupancy_oracle(obs):
             if ex.max_workers_cfg != want:
                 viol.append(V(f'{ex.stage} stage built with {ex.max_workers_cfg} worker threads; configured {want}', sym='wrong-pool-size',
                               stage=ex.stage))
+    # tasks governed by an in-memory limit: when every download goes to a non-seekable destination all GetObjectTasks are
+    # window-limited; when every upload reads from a stream all UploadPartTasks are limited by max_in_memory_upload_chunks
+    req = [ex for ex in obs.execs.made if ex.stage == 'request']
+    if req:
+        ex = req[0]
+        dls = [x for x in obs.xfers if x.kind == 'download']
+        if dls and all(x.spec.get('dst') in ('nonseekable', 'fifo') for x in dls):
+            m = ex.max_by_type.get('GetObjectTask', 0)
+            stats['max_tagged_get_tasks'] = m
+            if m > cfg.max_in_memory_download_chunks:
+                viol.append(V(f'{m} window-limited GetObject tasks queued-or-running at once; max_in_memory_download_chunks='
+                              f'{cfg.max_in_memory_download_chunks}', sym='tag-overrun', tag='in_memory_download'))
+        ups = [x for x in obs.xfers if x.kind == 'upload']
+        if ups and all(x.spec.get('src') in ('seekable', 'nonseekable') for x in ups):
+            m = ex.max_by_type.get('UploadPartTask', 0)
+            stats['max_tagged_part_tasks'] = m
+            if m > cfg.max_in_memory_upload_chunks:
+                viol.append(V(f'{m} in-memory UploadPart tasks queued-or-running at once; max_in_memory_upload_chunks='
+                              f'{cfg.max_in_memory_upload_chunks}', sym='tag-overrun', tag='in_memory_upload'))
     # untagged request tasks alone must respect max_request_queue_size: count by task type
     for x in obs.xfers:
         e = x.submit_exc or (x.exc if x.outcome == 'raised' else None)
